@@ -54,6 +54,31 @@ class Tasks:
             self.busy = False
 
 
+_INSTRUMENTED = {}
+
+
+@contextlib.contextmanager
+def stmt_level(sim, enabled):
+    """Swap in the statement-instrumented copy of joblib.parallel (built once per process from the current source)."""
+    if not enabled:
+        yield
+        return
+    import sys
+    import joblib
+    if "mod" not in _INSTRUMENTED:
+        _INSTRUMENTED["mod"] = parsim.instrumented_parallel_module()
+    real = sys.modules["joblib.parallel"]
+    sys.modules["joblib.parallel"] = _INSTRUMENTED["mod"]
+    joblib.parallel = _INSTRUMENTED["mod"]
+    parsim.CURRENT[0] = sim
+    try:
+        yield
+    finally:
+        parsim.CURRENT[0] = None
+        sys.modules["joblib.parallel"] = real
+        joblib.parallel = real
+
+
 @contextlib.contextmanager
 def installed(sim, durations=()):
     import joblib.parallel as jp
@@ -212,7 +237,8 @@ def run(cfg, sched):
             raise TaskError("task %d of call %d failed" % (i, call_no))
         return (call_no, i)
 
-    with installed(sim, durations):
+    with stmt_level(sim, cfg.get("stmt")), installed(sim, durations):
+        import joblib.parallel as jp            # the instrumented copy when statement-level switching is on
         sim.executor_state["kill_at"] = cfg.get("kill_at")
         be = make_backend(cfg["backend"], sim, cfg["n_workers"])
         kw = {}
